@@ -27,6 +27,7 @@ structure DSt where
   seen : List (List (Nat × Nat)) := []
   heap : List (Nat × Nat) := []      -- object identity ↦ number of in-place mutations
   phash : List (Nat × Nat) := []     -- child ↦ class of the parent's hash when it was replicated
+  quiet : Bool := false              -- inside a `repeat` line: hash classes are registered, nothing is rendered
 
 def gtypeOf : String → Option GType
   | "s" => some .structural | "r" => some .regulatory | "h" => some .housekeeping
@@ -120,7 +121,7 @@ def classOf (seen : List (List (Nat × Nat))) (c : List (Nat × Nat)) : List (Li
   | some i => (seen, i)
   | none => (seen ++ [c], seen.length)
 
-def showGenome (enc : Nat → Nat) (ph : Option Nat) (seen : List (List (Nat × Nat))) (g : Genome Nat) :
+def showGenome (render : Bool) (enc : Nat → Nat) (ph : Option Nat) (seen : List (List (Nat × Nat))) (g : Genome Nat) :
     List (List (Nat × Nat)) × String :=
   let (seen1, h) := classOf seen (canonView enc g)
   let (seen2, p) :=
@@ -128,6 +129,7 @@ def showGenome (enc : Nat → Nat) (ph : Option Nat) (seen : List (List (Nat × 
     | none, _ => (seen1, "none")
     | some _, some i => (seen1, toString i)       -- recorded when the child was made (the parent's objects as they were then)
     | some c, none => let (s, i) := classOf seen1 (c.map fun (q : Nat × Nat) => (q.1, enc q.2)); (s, toString i)
+  if !render then (seen2, "") else
   let gs := (g.genes.mergeSort (fun a b => a.name ≤ b.name)).map fun x =>
     s!"{x.name}={enc x.value}:{showGType x.gtype}:{showBool x.required}:{showLevel x.defExpr}"
   let es := (g.expr.mergeSort (fun a b => a.1 ≤ b.1)).map fun p => s!"{p.1}={showLevel p.2}"
@@ -138,7 +140,7 @@ def showGenome (enc : Nat → Nat) (ph : Option Nat) (seen : List (List (Nat × 
 def showStore (st : DSt) : DSt × String :=
   let enc := encOf st.heap
   let (seen, strs) := st.store.genomes.zipIdx.foldl (fun (acc : List (List (Nat × Nat)) × List String) gi =>
-    let (s, str) := showGenome enc ((st.phash.find? (·.1 == gi.2)).map (·.2)) acc.1 gi.1
+    let (s, str) := showGenome (!st.quiet) enc ((st.phash.find? (·.1 == gi.2)).map (·.2)) acc.1 gi.1
     (s, acc.2 ++ [str])) (st.seen, [])
   ({ st with seen := seen }, " | ".intercalate strs)
 
@@ -232,7 +234,7 @@ def doPoke (st : DSt) (i n : Nat) (via : String) : DSt × String :=
       let (st', str) := showStore { st with heap := heap }
       (st', s!"poked {r} | " ++ str ++ " ## poke:" ++ (if (st.store.genomes.filter (holds · r)).length > 1 then "shared" else "own"))
 
-def dstep (st : DSt) (toks : List String) : DSt × String :=
+def dstep1 (st : DSt) (toks : List String) : DSt × String :=
   match toks with
   | ["adv", set, script] =>
     match setOf set with
@@ -330,5 +332,59 @@ def dstep (st : DSt) (toks : List String) : DSt × String :=
     | some i, some n => exec st (.getValue i n)
     | _, _ => (st, "bad-op")
   | _ => (st, "bad-op")
+
+/-- split the token list of a `repeat` body at the `/` tokens -/
+def splitBodies (toks : List String) : List (List String) :=
+  toks.foldr (fun t acc =>
+    match acc with
+    | [] => if t = "/" then [[], []] else [[t]]
+    | b :: rest => if t = "/" then [] :: b :: rest else (t :: b) :: rest) []
+
+/-- run-length encoding of a sequence of observations -/
+def rle : List String → List (String × Nat)
+  | [] => []
+  | x :: xs =>
+    match rle xs with
+    | (y, c) :: rest => if x = y then (y, c + 1) :: rest else (x, 1) :: (y, c) :: rest
+    | [] => [(x, 1)]
+
+/-- one pass over the bodies of a `repeat` line (quiet: nothing is rendered); observations and tags in order -/
+def passOnce (st : DSt) (bodies : List (List String)) : DSt × List String × List String :=
+  bodies.foldl (fun (acc : DSt × List String × List String) b =>
+    let (st', out) := dstep1 acc.1 b
+    let obs := ((out.splitOn " | ").headD out)
+    let obs := ((obs.splitOn " ## ").headD obs)
+    let tag := match out.splitOn " ## " with | [_, t] => [t] | _ => []
+    (st', acc.2.1 ++ [obs], acc.2.2 ++ tag)) (st, [], [])
+
+def repeatLoop : Nat → DSt → List (List String) → List String → List String → DSt × List String × List String
+  | 0, st, _, obs, tags => (st, obs, tags)
+  | n + 1, st, bodies, obs, tags =>
+    let (st', o, t) := passOnce st bodies
+    repeatLoop n st' bodies (o.reverse ++ obs) ((t.filter fun x => !tags.contains x).eraseDups ++ tags)
+
+/-- `repeat <n> <op> [/ <op>]*`: the operation lines between the `/` tokens, in order, `n` times over (1 ≤ n ≤ 5000) —
+    a long history on the same objects in one protocol line.  It is an ABBREVIATION: the model executes `n × (number of
+    bodies)` ordinary `step`s.  Output: the run-length encoded observations, then the state after the last one.
+    `adv`, `new`, `fromdict`, `poke` and `repeat` are not allowed inside. -/
+def dstep (st : DSt) (toks : List String) : DSt × String :=
+  match toks with
+  | "repeat" :: n :: rest =>
+    match n.toNat? with
+    | some n =>
+      let bodies := splitBodies rest
+      let okHead := fun (b : List String) => match b with
+        | [] => false
+        | h :: _ => !(h = "adv" || h = "new" || h = "fromdict" || h = "poke" || h = "repeat")
+      if n = 0 || n > 5000 || bodies.isEmpty || !(bodies.all okHead) then (st, "bad-op")
+      else
+        let (st1, obsR, tags) := repeatLoop n { st with quiet := true } bodies [] []
+        if obsR.contains "bad-op" then (st, "bad-op")
+        else
+          let (st2, str) := showStore { st1 with quiet := false }
+          let runs := (rle obsR.reverse).map fun p => s!"{p.1} *{p.2}"
+          (st2, "rep " ++ "; ".intercalate runs ++ " | " ++ str ++ " ## " ++ " ".intercalate tags.reverse)
+    | none => (st, "bad-op")
+  | _ => dstep1 st toks
 
 def main : IO Unit := runDriver ({} : DSt) dstep
